@@ -1,6 +1,7 @@
 package props
 
 import (
+	"sort"
 	"fmt"
 	"go/constant"
 	"go/token"
@@ -55,7 +56,16 @@ func runC20(c *Ctx) {
 	}
 
 	// ---- bounds ----
-	for _, name := range []string{"ByteArray", "StringArray", "IPArray"} {
+	// every method of Line, for every line state and arbitrary arguments (the three truncating appenders were the
+	// original scope; a table lookup or copy in any other appender can run out of range just the same)
+	var lineMethods []string
+	for _, fn := range c.P.LibFunctions() {
+		if fn.Pkg != nil && fn.Pkg.Pkg.Name() == "fastlog" && fn.Signature.Recv() != nil && strings.HasSuffix(fn.Signature.Recv().Type().String(), "fastlog.Line") && fn.Parent() == nil {
+			lineMethods = append(lineMethods, fn.Name())
+		}
+	}
+	sort.Strings(lineMethods)
+	for _, name := range lineMethods {
 		fn := c.P.Method("fastlog", "Line", name)
 		if fn == nil {
 			r.Add(core.Obligation{Rule: "bounds", Key: "bounds Line." + name, Status: core.Violated, Detail: "method not found"})
@@ -64,7 +74,14 @@ func runC20(c *Ctx) {
 		var fails []string
 		seen := map[string]bool{}
 		n := 0
+		truncating := name == "ByteArray" || name == "StringArray" || name == "IPArray"
 		in := absint.New(c.P, absint.Config{MaxStates: 256, MaxOutcomes: 32}, func(f absint.Finding) {
+			// the property promises in-buffer truncation for the three array appenders only; for the other methods
+			// ("whenever the text fits the buffer") the obligations kept are the ones that do not depend on the room
+			// left in the line: lookups in the constant tables and slices of the arguments
+			if !truncating && strings.Contains(absint.SiteString(f.Site), "recv.buffer[") {
+				return
+			}
 			n++
 			if !f.OK {
 				k := fmt.Sprintf("%s %s: %s", f.Kind, absint.SiteString(f.Site), f.Detail)
@@ -84,6 +101,9 @@ func runC20(c *Ctx) {
 		in.Exec(fn, args, nil, h)
 		status := core.Proved
 		det := ""
+		if !truncating && n == 0 {
+			continue // nothing but buffer writes in this method
+		}
 		if len(fails) > 0 || n == 0 {
 			status = core.Violated
 			if len(fails) > 6 {
